@@ -477,6 +477,7 @@ class Ctx:
         self.pending = []         # (lines, answers, sections, label)
         self.budget_s = 60 if tier == 'quick' else 600
         self.driver = None        # name of the lean_exe that replays this check's sessions
+        self.shard, self.nshards = 0, 1   # thorough tier: this process's part of the work
 
     def time_left(self):
         return self.budget_s - (time.time() - self.t0)
